@@ -174,7 +174,7 @@ def main():
         finally:
             tap.uninstall()
         run = runs[-1]
-        run.update(id=1, case=0, has_table=False, tv=[], ti=[])
+        run.update(id=1, case=0, has_table=False, tv=[], ti=[], has_nref=False, nref=0)
         v, _, _ = tlc.validate("TraceSolver.tla", "TraceSolver.cfg", [[copy.deepcopy(run)]], ctx.work)
         rows.append(("TraceSolver", "unmodified run of %d sweeps" % len(run["sweeps"]), ["(none)"], clauses(v), not clauses(v)))
         if len(run["sweeps"]) >= 3:
